@@ -2,7 +2,7 @@
    Model: UV.C18.Model.script_run (cmds/script.c) over the reader model of C06. *)
 From Coq Require Import NArith List Bool.
 Import ListNotations.
-Require Import UV.C06.Model UV.C06.MergeProofs UV.C06.Proofs UV.C18.Model UV.C18.Proofs UV.C18.Filter UV.C18.FilterProofs UV.C18.MoreProofs UV.C18.ArgsProofs UV.C18.DefsProofs.
+Require Import UV.C06.Model UV.C06.MergeProofs UV.C06.Proofs UV.C18.Model UV.C18.Proofs UV.C18.Filter UV.C18.FilterProofs UV.C18.MoreProofs UV.C18.ArgsProofs UV.C18.DefsProofs UV.C18.Factor.
 Require UV.Mcount.Model UV.Mcount.Forest UV.Mcount.ScriptCb.
 Local Open Scope N_scope.
 
@@ -169,3 +169,24 @@ Print Assumptions C18_stop_on_absent_refuted.
 Theorem C18_checker_all_defined : forall funcs cbs lines, ok_script_d d_all funcs cbs lines = ok_script funcs cbs lines.
 Proof. exact ok_script_d_all. Qed.
 Print Assumptions C18_checker_all_defined.
+
+(* The restrictions compose: whatever callbacks the script defines, whatever its UFTRACE_FUNCS list and whatever --tid
+   selects, the callbacks it receives are the callbacks of the unrestricted run (which C18_same_calls equates with
+   replay) projected on the defined callback kinds, on the listed functions and on the selected tasks - nothing else is
+   dropped, added, reordered or changed - and the order in which the projections are applied does not matter. *)
+Theorem C18_restrictions_compose : forall d forks funcs sel tasks,
+  script_run_defs d forks funcs sel tasks =
+  filter (cb_defined d) (filter (cb_keep funcs) (script_run forks [] sel tasks)).
+Proof. exact script_factorises. Qed.
+Print Assumptions C18_restrictions_compose.
+Theorem C18_restrictions_compose_tid : forall d forks funcs sel tasks,
+  forallb wf_task tasks = true -> parent_closed (selected sel) tasks ->
+  script_run_defs d forks funcs sel tasks =
+  filter (cb_defined d) (filter (cb_keep funcs) (filter (cb_selected sel) (script_run forks [] None tasks))).
+Proof. exact script_factorises_tid. Qed.
+Print Assumptions C18_restrictions_compose_tid.
+Theorem C18_restrictions_commute : forall d forks funcs sel tasks,
+  script_run_defs d forks funcs sel tasks =
+  filter (cb_keep funcs) (filter (cb_defined d) (script_run forks [] sel tasks)).
+Proof. exact script_projections_commute. Qed.
+Print Assumptions C18_restrictions_commute.
